@@ -322,7 +322,6 @@ class TypedNode(Node):
 
         children = self._children
         if children is None:
-            assert before in (None, True, int, False)
             self._children = [node]
         elif before is True:  # prepend
             children.insert(0, node)
